@@ -143,6 +143,14 @@ impl<'a, D: DependencyProvider> Encoder<'a, D> {
             }
         };
 
+        // A solvable that was requested directly (a soft requirement) has not
+        // been revealed by any requirement: make sure it takes part in the
+        // "at most one solvable per package" clauses of its package.
+        if let Some(solvable) = solvable_id.solvable() {
+            let variable = self.state.variable_map.intern_solvable(solvable);
+            self.add_forbid_multiple_clauses(solvable, variable);
+        }
+
         // Iterate over all requirements and find out to which packages they
         // refer. Make sure we have all candidates for a particular package.
         for version_set_id in requirements
@@ -248,35 +256,7 @@ impl<'a, D: DependencyProvider> Encoder<'a, D> {
             // Add forbid constraints for this solvable on all other
             // solvables that have been visited already for the same
             // version set name.
-            let name_id = self.cache.provider().solvable_name(candidate);
-            let other_solvables = self
-                .state
-                .forbidden_clauses_added
-                .entry(name_id)
-                .or_default();
-            other_solvables.add(
-                candidate_var,
-                |a, b, positive| {
-                    let (watched_literals, kind) = WatchedLiterals::forbid_multiple(
-                        a,
-                        if positive { b.positive() } else { b.negative() },
-                        name_id,
-                    );
-                    let clause_id = self.state.clauses.alloc(watched_literals, kind);
-                    let watched_literals = self.state.clauses.watched_literals
-                        [clause_id.to_usize()]
-                    .as_mut()
-                    .expect("forbid clause must have watched literals");
-                    self.state
-                        .watches
-                        .start_watching(watched_literals, clause_id);
-                },
-                || {
-                    self.state
-                        .variable_map
-                        .alloc_forbid_multiple_variable(name_id)
-                },
-            );
+            self.add_forbid_multiple_clauses(candidate, candidate_var);
         }
 
         // Add the requirements clause
@@ -369,6 +349,46 @@ impl<'a, D: DependencyProvider> Encoder<'a, D> {
                 self.conflicting_clauses.push(clause_id);
             }
         }
+    }
+
+    /// Adds the clauses that forbid `candidate` to be installed together with
+    /// any other solvable of the same package that has been visited already.
+    fn add_forbid_multiple_clauses(&mut self, candidate: SolvableId, candidate_var: VariableId) {
+        let name_id = self.cache.provider().solvable_name(candidate);
+        let other_solvables = self
+            .state
+            .forbidden_clauses_added
+            .entry(name_id)
+            .or_default();
+        other_solvables.add(
+            candidate_var,
+            |a, b, positive| {
+                let literal = if positive { b.positive() } else { b.negative() };
+                let (watched_literals, kind) = WatchedLiterals::forbid_multiple(a, literal, name_id);
+                let clause_id = self.state.clauses.alloc(watched_literals, kind);
+                let watched_literals = self.state.clauses.watched_literals[clause_id.to_usize()]
+                    .as_mut()
+                    .expect("forbid clause must have watched literals");
+                self.state
+                    .watches
+                    .start_watching(watched_literals, clause_id);
+
+                // A solvable that was requested directly (a soft requirement)
+                // is already installed when it is visited for the first time.
+                // If another solvable of the package is installed too the new
+                // clause conflicts with the current decisions.
+                if self.state.decision_tracker.assigned_value(a) == Some(true)
+                    && literal.eval(self.state.decision_tracker.map()) == Some(false)
+                {
+                    self.conflicting_clauses.push(clause_id);
+                }
+            },
+            || {
+                self.state
+                    .variable_map
+                    .alloc_forbid_multiple_variable(name_id)
+            },
+        );
     }
 
     /// Adds clauses to forbid any other clauses than the locked solvable to be installed.
